@@ -709,7 +709,7 @@ impl Tcb {
             && final(self).snd.nxt == old(self).snd.nxt && final(self).snd.iss == old(self).snd.iss,   //# frame [C17,C03]
         r == ProcessSegmentResult::Success || r == ProcessSegmentResult::InvalidAck,
         // an ACK for something not yet sent is refused and changes nothing but the ACK queue
-        (r == ProcessSegmentResult::InvalidAck) == (!circ_leq(seg.ack, old(self).snd.una) && seg.ack != old(self).snd.una && circ_lt(old(self).snd.nxt, seg.ack)),   //# refuses_ack_beyond_snd_nxt [C17]
+        (r == ProcessSegmentResult::InvalidAck) == (!circ_lt(seg.ack, old(self).snd.una) && circ_lt(old(self).snd.nxt, seg.ack)),   //# refuses_ack_beyond_snd_nxt [C17]
         r == ProcessSegmentResult::InvalidAck ==> final(self).snd == old(self).snd && final(self).outgoing.retransmit@ == old(self).outgoing.retransmit@,
         // SND.UNA only ever advances, and only to an acknowledgment inside (SND.UNA, SND.NXT]
         final(self).snd.una == old(self).snd.una
@@ -721,7 +721,8 @@ impl Tcb {
         final(self).snd.wnd == old(self).snd.wnd || final(self).snd.wnd == seg.wnd,   //# window_from_peer_only [C17]
         // RFC 9293 3.10.7.4: a valid ACK that is not older (in the circular order) than the segment used for the last
         // window update makes SND.WND follow the window the peer advertises now; an older one does not touch it
-        (r == ProcessSegmentResult::Success && final(self).snd.una != old(self).snd.una) ==> (
+        // (C17 'the window the peer last advertised': also when the segment acknowledges nothing new, SND.UNA = SEG.ACK)
+        (r == ProcessSegmentResult::Success && (seg.ack == old(self).snd.una || !circ_leq(seg.ack, old(self).snd.una))) ==> (
             if circ_lt(old(self).snd.wl1, seg.seq) || (old(self).snd.wl1 == seg.seq && (circ_leq(old(self).snd.wl2, seg.ack)))
             { final(self).snd.wnd == seg.wnd && final(self).snd.wl1 == seg.seq && final(self).snd.wl2 == seg.ack }
             else { final(self).snd.wnd == old(self).snd.wnd && final(self).snd.wl1 == old(self).snd.wl1 && final(self).snd.wl2 == old(self).snd.wl2 }),   //# window_follows_the_latest_advertisement [C17,C12]
@@ -764,9 +765,12 @@ impl Tcb {
             && final(self).incoming == old(self).incoming && final(self).timeouts == old(self).timeouts
             && final(self).outgoing.retransmit@ == old(self).outgoing.retransmit@ && final(self).outgoing.oneshot@ == old(self).outgoing.oneshot@,   //# only_queues_text [C01,C17]
         // (C01) a write is accepted, in order and unmodified, exactly in the states that allow sending
-        (old(self).state == State::SynSent || old(self).state == State::SynReceived || old(self).state == State::Established)
-            ==> final(self).outgoing.text@ == old(self).outgoing.text@ + message@,   //# appends_in_order [C01,C02]
-        !(old(self).state == State::SynSent || old(self).state == State::SynReceived || old(self).state == State::Established)
+        //       (RFC 9293 3.10.2: before the connection is established the data is queued; in ESTABLISHED and in CLOSE-WAIT -
+        //        where only the peer has closed - it is segmentized and sent)
+        (old(self).state == State::SynSent || old(self).state == State::SynReceived || old(self).state == State::Established || old(self).state == State::CloseWait)
+            ==> final(self).outgoing.text@ == old(self).outgoing.text@ + message@,   //# appends_in_order [C01,C02,C03]
+        // after our own close nothing more is accepted
+        !(old(self).state == State::SynSent || old(self).state == State::SynReceived || old(self).state == State::Established || old(self).state == State::CloseWait)
             ==> final(self).outgoing.text@ == old(self).outgoing.text@,   //# refused_after_close [C01,C03]
 //@ end
 
